@@ -413,8 +413,13 @@ def check(case, ctx):
             n += 1
             want = ref_parse_size(s)
             try:
-                got = g.Size.from_string(s)
-                got = (got.value, got.unit.value)
+                parsed = g.Size.from_string(s)
+                got = (parsed.value, parsed.unit.value)
+                # a parsed size and the same size from the constructor are one value: equal, same hash
+                twin = g.Size(parsed.value, parsed.unit)
+                if not (parsed == twin) or hash(parsed) != hash(twin) or (parsed != twin):
+                    fails.append({'what': 'a size parsed from a string and the same size built by the constructor '
+                                          'are not equal or hash differently', 'string': s, 'value': got})
             except CaptionReadSyntaxError:
                 got = None
             except Exception as e:
@@ -442,6 +447,10 @@ def check(case, ctx):
             fails.append({'what': 'printing differs from two-decimal rounding', 'expected': sorted(want), 'got': got})
             return fails
         back = g.Size.from_string(got)
+        twin = g.Size(back.value, back.unit)
+        if back != twin or hash(back) != hash(twin):
+            fails.append({'what': 'a re-parsed size and the same size built by the constructor hash differently',
+                          'printed': got})
         if str(back) != got or back.unit != s.unit or back.value != float(got[:len(got) - len(case['unit'])]):
             fails.append({'what': 're-parsing a printed size does not reproduce it',
                           'printed': got, 'reparsed': [back.value, back.unit.value]})
@@ -522,5 +531,25 @@ def check(case, ctx):
             # the result must not share mutable component objects that were altered
             if dump_any(cls, build(cls, case['spec'])) != before:
                 fails.append({'what': 'spec rebuild differs (harness)'})
+        if case['op'] != 'fit_to_screen':
+            # observational side of "unchanged": the used receiver must answer a second question - another
+            # reference length, the other axis - exactly as a fresh, equal value does
+            def ask(o):
+                try:
+                    if cls == 'Size':
+                        if case['vw'] is not None:
+                            r = o.as_percentage_of(video_height=case['vw'] * 3 + 7)
+                        else:
+                            r = o.as_percentage_of(video_width=(case['vh'] or 100) * 3 + 7)
+                    else:
+                        r = o.as_percentage_of((case['vw'] or 100) * 3 + 7, (case['vh'] or 100) * 2 + 5)
+                    return ['ok', dump_any(cls, r)]
+                except (RelativizationError, ValueError) as e:
+                    return ['raised', type(e).__name__]
+            used, fresh = ask(obj), ask(build(cls, case['spec']))
+            ctx.count('second_questions_to_a_used_receiver')
+            if used != fresh:
+                fails.append({'what': 'a value that was relativized before answers differently from a fresh equal value',
+                              'used': used, 'fresh': fresh, 'first_reference': [case['vw'], case['vh']]})
         return fails
     raise ValueError(k)
